@@ -19,7 +19,7 @@ func init() {
 		ID:          "C05",
 		Level:       "other",
 		Run:         runC05,
-		Explanation: "Structural necessary conditions of cache transparency on MVP-3..8: R05.1 every normal return of Run is preceded by the write-back of every cache that can be dirty (L1 before L3 where there are two levels); R05.2 when inserting a line displaces another, the bytes written back are the victim's and go to the victim's own base (value flow from the result of PushLine / PushLineWithEvictionWarning); R05.3 every base passed to PushLine* of a data cache is produced by the alignment function of that cache's line size or copied from a resident line's boundary (so resident lines cannot overlap); R05.4 a store is applied to the cache only under a presence test of all its bytes, and a line fill reads the bytes at the base the line is inserted under; R05.5 a line is inserted only under an absence test (no duplicate copy); R05.6 every per-line table is keyed through one alignment function. Does not decide 'each load returns the latest store' for arbitrary access patterns (needs C10 and values).",
+		Explanation: "Structural necessary conditions of cache transparency on MVP-3..8: R05.1 every normal return of Run is preceded by the write-back of every cache that can be dirty (L1 before L3 where there are two levels); R05.2 when inserting a line displaces another, the bytes written back are the victim's and go to the victim's own base (value flow from the result of PushLine / PushLineWithEvictionWarning); R05.3 every base passed to PushLine* of a data cache is produced by the alignment function of that cache's line size or copied from a resident line's boundary (so resident lines cannot overlap); R05.4 a store is applied to the cache only under a presence test of all its bytes, and a line fill reads the bytes at the base the line is inserted under; R05.5 a line is inserted only under an absence test (no duplicate copy); R05.6 every per-line table is keyed through one alignment function; R05.9 a line fill compares the byte index with the image length itself (it pads exactly the bytes outside the image); R05.10 the write-back of a line skips the bytes below address 0 and stops only past the end. Does not decide 'each load returns the latest store' for arbitrary access patterns (needs C10 and values).",
 		Assumptions: []string{"the line cache itself is C13's LRU model"},
 		Trusted:     []string{"go/types", "address provenance engine (prov.go)", "role resolution"},
 	})
@@ -548,6 +548,11 @@ func runC05(r *Run) {
 		ruleTableKeys(r, "R05.6", v, pe)
 		ruleProbeNotCached(r, "R05.8", v, byVar)
 	}
+	// R05.9: a line fill pads exactly the bytes outside the image; R05.10: the write-back skips bytes below 0
+	r.floor("R05.9", 9)
+	ruleLineFillExact(r, "R05.9")
+	r.floor("R05.10", 9)
+	ruleWriteBackBounds(r, "R05.10")
 	// R05.7: the cache component the variants are built on equals its reference model
 	r.floor("R05.7", 12)
 	for _, m := range []string{"get", "set"} {
